@@ -12,6 +12,7 @@ package gtfs
 // Enum decoders (C01: "enums by their GTFS digit"; C10: blank = default)
 
 //@ func parseBikesAllowed
+//@   inline
 //@   props C01 C10
 //@   ensures [one] s == "1" ==> result == BikesAllowed_Allowed
 //@   ensures [two] s == "2" ==> result == BikesAllowed_NotAllowed
@@ -22,6 +23,7 @@ package gtfs
 //@   assigns nothing
 
 //@ func parseDirectionID_GTFSStatic
+//@   inline
 //@   props C01 C10
 //@   ensures [zero] s == "0" ==> result == DirectionID_False
 //@   ensures [one] s == "1" ==> result == DirectionID_True
@@ -41,6 +43,7 @@ package gtfs
 //@   assigns nothing
 
 //@ func parseExactTimes
+//@   inline
 //@   props C01 C10
 //@   ensures [zero] s == "0" ==> result == FrequencyBased
 //@   ensures [one] s == "1" ==> result == ScheduleBased
@@ -49,6 +52,7 @@ package gtfs
 //@   assigns nothing
 
 //@ func parsePickupDropOffPolicy
+//@   inline
 //@   props C01 C10
 //@   ensures [zero] s == "0" ==> result == PickupDropOffPolicy_Yes
 //@   ensures [one] s == "1" ==> result == PickupDropOffPolicy_No
@@ -59,6 +63,7 @@ package gtfs
 //@   assigns nothing
 
 //@ func parseRouteType_GTFSStatic
+//@   inline
 //@   props C01 C02
 //@   ensures [d0] s == "0" ==> result == RouteType_Tram
 //@   ensures [d1] s == "1" ==> result == RouteType_Subway
@@ -88,6 +93,7 @@ package gtfs
 //@   assigns nothing
 
 //@ func parseStopType
+//@   inline
 //@   props C01 C10
 //@   ensures [d1] s == "1" ==> result == StopType_Station
 //@   ensures [d2] s == "2" ==> result == StopType_EntranceOrExit
@@ -99,6 +105,7 @@ package gtfs
 //@   assigns nothing
 
 //@ func parseTransferType
+//@   inline
 //@   props C01 C10
 //@   ensures [d0] s == "0" ==> result == TransferType_Recommended
 //@   ensures [d1] s == "1" ==> result == TransferType_Timed
@@ -109,6 +116,7 @@ package gtfs
 //@   assigns nothing
 
 //@ func parseWheelchairBoarding
+//@   inline
 //@   props C01 C10
 //@   ensures [d0] s == "0" ==> result == WheelchairBoarding_NotSpecified
 //@   ensures [d1] s == "1" ==> result == WheelchairBoarding_Possible
@@ -193,12 +201,54 @@ package gtfs
 //@   loop 3 invariant csvOK(csv)
 //@   loop 3 decreases remaining(csv.csvReader)
 
+// parseGtfsTimeToDuration: its result is a function of the text alone (gtfsTimeOK / gtfsTimeVal). That it computes
+// H:MM:SS as (H*60+MM)*60+SS seconds is covered by the bounded stand-in "gtfs-time" (C01), not proved here.
+//@ ghost func gtfsTimeOK(s string) bool
+//@ ghost func gtfsTimeVal(s string) time.Duration
+//@ func parseGtfsTimeToDuration
+//@   props C01 C05
+//@   ensures [blank] s == "" ==> !result.1 && result.0 == 0
+//@   trusted-ensures [function-of-the-text] result.1 == gtfsTimeOK(s) && (result.1 ==> result.0 == gtfsTimeVal(s)) && (!result.1 ==> result.0 == 0)
+//@   loop 1 invariant 0 <= i && i <= 2
+//@   assigns nothing
+
+//@ func parseScheduledStopTimes$1
+//@   props C05 C08
+//@   requires trip != nil && 0 <= i && i < len(trip.StopTimes) && 0 <= j && j < len(trip.StopTimes)
+//@   comparator trip.StopTimes[i].StopSequence < trip.StopTimes[j].StopSequence
+//@   assigns nothing
+
+// p is the element of slice s whose id is the key (C03: "the very element of the result's collection")
+//@ pure func stopIn(p *Stop, stops []Stop, id string) bool = p != nil && obj(p) == obj(stops) && off(stops) <= idx(p) && idx(p) < off(stops) + len(stops) && p.Id == id
+//@ pure func tripIn(p *ScheduledTrip, trips []ScheduledTrip, id string) bool = p != nil && obj(p) == obj(trips) && off(trips) <= idx(p) && idx(p) < off(trips) + len(trips) && p.ID == id
+
+// a stop_times row is accepted iff a time is given, the sequence is a number, the three required cells are
+// non-blank and both references resolve (C09 lists exactly these causes of rejection)
+//@ pure func stRowAccepted(f *csv.File, idToStop ?, idToTrip ?) bool = (gtfsTimeOK(col(f, "arrival_time")) || gtfsTimeOK(col(f, "departure_time"))) && atoiOK(col(f, "stop_sequence")) && col(f, "stop_id") != "" && col(f, "stop_sequence") != "" && col(f, "trip_id") != "" && idToStop[col(f, "stop_id")] != nil && idToTrip[col(f, "trip_id")] != nil
+// the stop time a row is transcribed to (C01), with the GTFS defaults and the one-sided time rule (C10)
+//@ pure func stFaithful(e ScheduledStopTime, f *csv.File, idToStop ?) bool = e.Stop == idToStop[col(f, "stop_id")] && e.Headsign == col(f, "stop_headsign") && e.StopSequence == atoiVal(col(f, "stop_sequence")) && e.ArrivalTime == (gtfsTimeOK(col(f, "arrival_time")) ? gtfsTimeVal(col(f, "arrival_time")) : gtfsTimeVal(col(f, "departure_time"))) && e.DepartureTime == (gtfsTimeOK(col(f, "departure_time")) ? gtfsTimeVal(col(f, "departure_time")) : gtfsTimeVal(col(f, "arrival_time"))) && e.PickupType == parsePickupDropOffPolicy(orDefault(col(f, "pickup_type"), "0")) && e.DropOffType == parsePickupDropOffPolicy(orDefault(col(f, "drop_off_type"), "0")) && e.ContinuousPickup == parsePickupDropOffPolicy(col(f, "continuous_pickup")) && e.ContinuousDropOff == parsePickupDropOffPolicy(col(f, "continuous_drop_off")) && e.ExactTimes == (orDefault(col(f, "timepoint"), "1") == "1") && (col(f, "shape_dist_traveled") == "" ==> e.ShapeDistanceTraveled == nil)
+
+// what one loop iteration does to trip T (athead(3, ·): at the start of the iteration)
+//@ pure func stAppended(T *ScheduledTrip, f *csv.File, idToStop ?) bool = len(T.StopTimes) == athead(3, len(T.StopTimes)) + 1 && stFaithful(T.StopTimes[len(T.StopTimes) - 1], f, idToStop)
+//@ pure func stPrefixKept(T *ScheduledTrip) bool = forall k int :: 0 <= k && k < athead(3, len(T.StopTimes)) ==> T.StopTimes[k] == athead(3, T.StopTimes[k])
+
 //@ func parseScheduledStopTimes
 //@   props C01 C03 C05 C08 C09 C10
 //@   requires csvOK(csv)
-//@   loop 2 invariant idToTrip != nil && (forall k string :: has(idToTrip, k) ==> idToTrip[k] != nil)
-//@   loop 3 invariant csvOK(csv)
+//@   requires [no-stop-times-yet] forall j int :: 0 <= j && j < len(trips) ==> len(trips[j].StopTimes) == 0 && cap(trips[j].StopTimes) == 0
+//@   loop 1 invariant idToStop != nil && fresh(idToStop) && (forall id string :: has(idToStop, id) ==> stopIn(idToStop[id], stops, id))
+//@   loop 2 invariant idToTrip != nil && fresh(idToTrip) && (forall id string :: has(idToTrip, id) ==> tripIn(idToTrip[id], trips, id))
+//@   loop 2 invariant idToStop != nil && (forall id string :: has(idToStop, id) ==> stopIn(idToStop[id], stops, id))
+//@   loop 3 invariant [ctx] csvOK(csv) && idToStop != nil && idToTrip != nil && idToStop != idToTrip
+//@   loop 3 invariant [stops-by-id] forall id string :: has(idToStop, id) ==> stopIn(idToStop[id], stops, id)
+//@   loop 3 invariant [trips-by-id] forall id string :: has(idToTrip, id) ==> tripIn(idToTrip[id], trips, id)
+//@   loop 3 invariant [current-trip-cache] currentTrip == nil || currentTrip == idToTrip[currentTripID]
+//@   loop 3 step [rejected-unless-its-trip-is-at-hand] stRowAccepted(csv, idToStop, idToTrip) ==> currentTrip != nil && currentTrip == idToTrip[col(csv, "trip_id")]
+//@   loop 3 step [accepted-row-is-appended-to-its-trip] stRowAccepted(csv, idToStop, idToTrip) ==> stAppended(idToTrip[col(csv, "trip_id")], csv, idToStop)
+//@   loop 3 step [earlier-stop-times-of-that-trip-kept] stRowAccepted(csv, idToStop, idToTrip) ==> stPrefixKept(idToTrip[col(csv, "trip_id")])
+//@   loop 3 step [rejected-row-is-inert] !stRowAccepted(csv, idToStop, idToTrip) ==> (forall j int :: 0 <= j && j < len(trips) ==> len(trips[j].StopTimes) == athead(3, len(trips[j].StopTimes)))
 //@   loop 3 decreases remaining(csv.csvReader)
+//@   loop 4 invariant idToTrip != nil && (forall id string :: has(idToTrip, id) ==> tripIn(idToTrip[id], trips, id))
 
 // the cell of the current row under header `name` ("" when the file has no such column): C01 "the value written in
 // that row under the corresponding column header"
